@@ -183,10 +183,10 @@ impl Controller for StaticResourceController {
 //backward compatability
 impl StaticResourceController {
 
-    // a '..' segment would let the path leave the served directory
+    // a '..' segment would let the path leave the served directory; the whole string is
+    // checked because '#' and '?' may be part of the path that reaches the filesystem
     pub fn has_parent_directory_segment(path: &str) -> bool {
-        let path_without_query = path.split(|c| c == '?' || c == '#').next().unwrap_or(path);
-        path_without_query.split(|c| c == '/' || c == '\\').any(|segment| segment == "..")
+        path.split(|c| c == '/' || c == '\\' || c == '?' || c == '#').any(|segment| segment == "..")
     }
 
     pub fn is_matching_request(request: &Request) -> bool {
